@@ -514,7 +514,12 @@ class Check:
         doc = {"property_id": self.prop, "tier": self.tier, "seed": int(self.seed), "level": self.level,
                "coverage": cov, "assumptions": self.assumptions, "wall_s": round(time.time() - self.t0, 2),
                "violations": nviol}
-        with open(os.path.join(EVID, f"{self.prop}.json"), "w") as f:
+        # a partial run (--only proof / --only bounded, used while building) or a run against a scratch copy of the
+        # repository is not evidence for the property: it goes to .work/, never over the evidence file
+        partial = bool(getattr(self, "only", None)) or os.environ.get("VERIF_REPO", "/repo") != "/repo"
+        dest = os.path.join(ROOT, ".work", "partial_evidence") if partial else EVID
+        os.makedirs(dest, exist_ok=True)
+        with open(os.path.join(dest, f"{self.prop}.json"), "w") as f:
             json.dump(doc, f, indent=1, default=str)
 
 
